@@ -250,7 +250,14 @@ func (p *Program) addFile(cf *ContractFile) {
 		case "lemma":
 			p.Lemmas = append(p.Lemmas, c)
 		default:
-			p.Types[fkey(pkg, c.Kind+" "+name)] = c
+			k := fkey(pkg, c.Kind+" "+name)
+			if c.Kind == "wire" {
+				// several wire blocks may describe one type (layouts for one set of properties, routing for another)
+				for p.Types[k] != nil {
+					k += "#"
+				}
+			}
+			p.Types[k] = c
 		}
 	}
 }
